@@ -324,7 +324,7 @@ mksection .text
         kmovw           k1, [tmp2 + idx*2]
 %assign i 0
 %rep (16 + 6)
-        vmovdqa32       [state + _zuc_state]{k1}, zmm0
+        vmovdqa32       [state + _zuc_state + i*64]{k1}, zmm0
 %assign i (i + 1)
 %endrep
 %endif
@@ -548,7 +548,7 @@ mksection .text
         vpxorq          zmm0, zmm0
 %assign i 0
 %rep (16 + 6)
-        vmovdqa32       [state + _zuc_state]{k1}, zmm0
+        vmovdqa32       [state + _zuc_state + i*64]{k1}, zmm0
 %assign i (i + 1)
 %endrep
 %endif
@@ -986,7 +986,7 @@ FLUSH_JOB_ZUC256_EEA3:
         kmovw           k1, [tmp2 + idx*2]
 %assign i 0
 %rep (16 + 6)
-        vmovdqa32       [state + _zuc_state]{k1}, zmm0
+        vmovdqa32       [state + _zuc_state + i*64]{k1}, zmm0
 %assign i (i + 1)
 %endrep
 %endif
@@ -1188,7 +1188,7 @@ FLUSH_JOB_ZUC256_EEA3:
         vpxorq          zmm0, zmm0
 %assign i 0
 %rep (16 + 6)
-        vmovdqa32       [state + _zuc_state]{k1}, zmm0
+        vmovdqa32       [state + _zuc_state + i*64]{k1}, zmm0
 %assign i (i + 1)
 %endrep
 %endif
